@@ -194,6 +194,10 @@ fn build_rows() -> Vec<Row> {
     v.push(Row { plus_r: true, ..row("pop", 0, 0, 0x58, 0, RM_NONE, SZ_D64, IMM_NONE, NO32) });
     v.push(row("push", 0, 0, 0x6A, 0, RM_NONE, SZ_D64, IMM_B, NO32));
     v.push(row("push", 0, 0, 0x68, 0, RM_NONE, SZ_D64, IMM_Z, NO32));
+    for op in [0xA0u8, 0xA8] {
+        v.push(row("push.sreg", 0, 1, op, 0, RM_NONE, SZ_D64, IMM_NONE, NO32 | RARE));
+        v.push(row("pop.sreg", 0, 1, op + 1, 0, RM_NONE, SZ_D64, IMM_NONE, NO32 | RARE));
+    }
     v.push(row("call", 0, 0, 0xE8, 0, RM_NONE, SZ_FIXED, REL32, NO32));
     v.push(row("jmp", 0, 0, 0xE9, 0, RM_NONE, SZ_FIXED, REL32, 0));
     v.push(row("jmp", 0, 0, 0xEB, 0, RM_NONE, SZ_FIXED, REL8, 0));
@@ -210,6 +214,9 @@ fn build_rows() -> Vec<Row> {
     ] {
         v.push(row(mn, pfx, 1, op, -1, RM_ANY, SZ_FIXED, IMM_NONE, s));
     }
+    // SSE2 scalar move: capstone names it like the string instruction MOVSD
+    v.push(row("movsd.sse", 0xF2, 1, 0x10, -1, RM_ANY, SZ_FIXED, IMM_NONE, s));
+    v.push(row("movsd.sse", 0xF2, 1, 0x11, -1, RM_ANY, SZ_FIXED, IMM_NONE, s));
     v.push(row("movd", 0x66, 1, 0x6E, -1, RM_ANY, SZ_W, IMM_NONE, s));
     v.push(row("movd", 0x66, 1, 0x7E, -1, RM_ANY, SZ_W, IMM_NONE, s));
     for (op, mn) in [(0x16u8, "movhpd"), (0x17, "movhpd"), (0x12, "movlpd"), (0x13, "movlpd")] {
